@@ -73,8 +73,8 @@ contract(SC + '.verify_signature', pure=True,
          returns='Bool',
          requires=['truthy(cert_file) or truthy(self.cert_file)'],
          ensures=[('true', 'result is True'),
-                  ('C20-ok-means-verified', 'implies(truthy(node_id), XS_OK(DOC(signedtext), node_name, node_id, '
-                                            'ite(truthy(cert_file), cert_file, self.cert_file)))')],
+                  ('C20-ok-means-verified', 'XS_OK(DOC(signedtext), node_name, ite(truthy(node_id), node_id, None), '
+                                            'ite(truthy(cert_file), cert_file, self.cert_file))')],
          raises={'XmlsecError': 'True', 'OSError': 'True', 'UnicodeDecodeError': 'True'}, modifies=[],
          clauses_from={'C20': ['C20-ok-means-verified']})
 
@@ -153,6 +153,14 @@ axiom('proc_ran', 'E-XMLSEC-VERIFY',
       "and a[8] == '--node-id' and a[10] == '--output', "
       "XS_OK(content(a[12]), a[7], a[9], a[5])), ['Seq', 'Val'])" % _OK)
 
+# the same command without --node-id: the tool verifies the FIRST signature of the document (node id None in XS_OK)
+axiom('proc_ran', 'E-XMLSEC-VERIFY-NO-NODE-ID',
+      "forall(lambda a, e: implies(proc_ran(a, e) and is_str(e) and (%s) and len(a) == 11 "
+      "and a[1] == '--verify' and a[2] == '--enabled-reference-uris' and a[3] == 'empty,same-doc' "
+      "and is_str(a[4]) and prefixof('--pubkey-cert-', str_of(a[4])) and is_str(a[6]) and prefixof('--id-attr:', str_of(a[6])) "
+      "and a[8] == '--output', "
+      "XS_OK(content(a[10]), a[7], None, a[5])), ['Seq', 'Val'])" % _OK)
+
 contract(XB + '._run_xmlsec',
          types={'com_list': 'List(Str)', 'extra_args': 'List(Str)', 'validate_output': 'Any', 'exception': 'Any'},
          returns='Tuple(Str, Str, Bytes)',
@@ -168,7 +176,7 @@ contract(XB + '.validate_signature',
                 'node_id': 'Opt(Str)', 'id_attr': 'Str'},
          returns='Bool',
          ensures=[('true', 'result is True'),
-                  ('C20-ok-means-verified', 'implies(truthy(node_id), XS_OK(DOC(signedtext), node_name, node_id, cert_file))')],
+                  ('C20-ok-means-verified', 'XS_OK(DOC(signedtext), node_name, ite(truthy(node_id), node_id, None), cert_file)')],
          raises={'XmlsecError': 'True', 'OSError': 'True', 'UnicodeDecodeError': 'True'}, modifies=[],
          clauses_from={'C20': ['C20-ok-means-verified'], 'C01': ['C20-ok-means-verified']})
 
